@@ -180,7 +180,7 @@ def close_after_del_rule(rep, u):
             continue
         for pos, root, c, ps in fn.calls({"close"}):
             a = key(core.strip_casts(c["args"][0]))
-            if "tfd" not in a.lower():
+            if "tfd" not in a.lower() and "tpdata" not in a:
                 continue
             n += 1
             rep.functions.add(fn.name)
@@ -220,4 +220,45 @@ def add_target_rule(rep, u):
             (rep.proved if ok else rep.violated)("R-OUTDEF", fn, "thread-stored-after-test", desc, "" if ok else
                                                  "stored before any test: add(NULL thread) returns EINVAL but the live registration now has tpt = NULL - del fails and "
                                                  "the next event dereferences it", x.get("ln"))
+    return n
+
+
+def tpdata_bookkeeping_rule(rep, fp, fl, vals):
+    """bits of tpdata that later tests rely on are really stored where the state is established:
+      * the 'added' mark tested by delete / disable is set on the read/write add path,
+      * the clock-kind mark compared on re-arming is set when the timerfd is created for absolute time,
+      * in the loop the DISPATCH 'disabled' mark is not set for a timer before its expiration was read (a worker that loses
+        the read would otherwise disable a timer the winner's callback has just re-enabled)."""
+    probes = tp.probe(tp.TP_C, {"ADDED": "IFDEF:TPDATA_F_ADDED", "ABS": "IFDEF:TPDATA_F_ABSTIME"}, "probe:tpdata:marks")
+    n = 0
+    for nm, what, why in (("ADDED", "the 'added' mark is stored on the add path", "never stored: every delete / disable answers ENOENT"),
+                          ("ABS", "the clock-kind mark is stored when the timerfd is created for absolute time", "never stored: a later relative arming is taken for the same clock")):
+        v = probes.get(nm)
+        if v is None:
+            continue
+        tested = any(any(const_val(y) == v for y, _ in _walk(fp.blocks[b].cond)) for b in fp.reachable_blocks() if fp.blocks[b].cond is not None)
+        stored = any(x.get("k") == "bin" and x["op"] == "|=" and const_val(x["y"]) == v for p_, r_, x, _ in fp.nodes())
+        if not tested:
+            continue
+        n += 1
+        (rep.proved if stored else rep.violated)("R-KIND" if nm == "ADDED" else "R-CLOCK", fp, "mark-stored:%s" % nm, "tpt_ev_post: " + what, "" if stored else why)
+    # loop: DISABLED stores
+    dis = vals["TPDATA_F_DISABLED"]
+    reads = [pos for pos, root, c, ps in fl.calls({"read"})]
+    for pos, root, x, ps in fl.nodes():
+        if x.get("k") == "bin" and x["op"] == "|=" and const_val(x["y"]) == dis:
+            n += 1
+            after_read = any(fl.pos_dominates(r_, pos) for r_ in reads)
+            excl = False
+            for bid in fl.reachable_blocks():
+                cnd = fl.blocks[bid].cond
+                if cnd is not None and fl.dominates(bid, pos[0]) and bid != pos[0] and \
+                        any(y.get("k") == "bin" and y["op"] in ("==", "!=") and
+                            ((const_val(y["x"]) == vals["TP_EV_TIMER"] and "event" in key(y["y"])) or (const_val(y["y"]) == vals["TP_EV_TIMER"] and "event" in key(y["x"])))
+                            for y, _ in _walk(cnd)) and \
+                        pos[0] in fl.blocks[bid].rsucc() and len(fl.blocks[bid].rsucc()) == 2:
+                    excl = True                      # the store is one arm of this very test
+            desc = "tpt_loop: the DISPATCH 'disabled' mark at line %s is not set for a timer whose expiration this thread has not read" % x.get("ln")
+            (rep.proved if (after_read or excl) else rep.violated)("R-READOK", fl, "disabled-mark-after-read#%d" % n, desc, "behind the read" if after_read else ("timers excluded" if excl else
+                                                                   "set for every event kind before the switch: a worker that loses the read of a shared timer disables it after the winner's callback re-enabled it"), x.get("ln"))
     return n
